@@ -56,9 +56,8 @@ func runRace(in input) lib.Case {
 	// established connections
 	for i := 0; i < rc.Pre; i++ {
 		e.sendPeer = append(e.sendPeer, i%rc.Peers)
-		if err := e.runMacro(m1("send", i%rc.Peers), i); err != nil {
-			return lib.Case{Discard: true}
-		}
+		// (a failing set-up send shows in the send results; nothing is dropped)
+		e.runMacro(m1("send", i%rc.Peers), i)
 	}
 	npre := len(e.conns)
 	preSends := len(e.sends)
